@@ -9,11 +9,13 @@ import (
 
 func init() {
 	c04 := &trace.Config{
-		Methods:  []string{trace.MExecute, trace.MSel, trace.MSelCtl, trace.MExecute, trace.MSelCtl},
-		Clauses:  trace.Clauses(trace.ClSeq, trace.ClOnce, trace.ClOrder, trace.ClPolicy, trace.ClError, trace.ClLate),
-		Gen:      trace.GenOpts{MinRules: 1, MaxRules: 10, FailProb: 0.25, RetProb: 0.3, WideSal: true},
-		Calls:    8,
-		PoolProb: 0.5,
+		// the stop-tag variants of the sorted loops are sort-model executions too (their stop clause is C14's)
+		Methods:     []string{trace.MExecute, trace.MSel, trace.MSelCtl, trace.MExecute, trace.MSelCtl, trace.MExecuteStop, trace.MSelCtlStop},
+		StopSetters: 1,
+		Clauses:     trace.Clauses(trace.ClSeq, trace.ClOnce, trace.ClOrder, trace.ClPolicy, trace.ClError, trace.ClLate),
+		Gen:         trace.GenOpts{MinRules: 1, MaxRules: 10, FailProb: 0.25, RetProb: 0.3, WideSal: true},
+		Calls:       8,
+		PoolProb:    0.5,
 	}
 	fw.Families["C04"] = func(k *fw.Case) { trace.RunCase(k, c04) }
 
